@@ -104,6 +104,11 @@ func (m *MatchWinbox) Match(cx *layer4.Connection) (bool, error) {
 	// Parse MessageAuth
 	msg := &MessageAuth{}
 	if err = msg.FromBytes(buf[:n+2]); err != nil {
+		if int(hdr[0]) == MessageChunkBytesMax && n == MessageChunkBytesMax {
+			// Only a full first chunk has arrived so far. A continuation chunk may follow,
+			// so the message is incomplete, not malformed.
+			return false, layer4.ErrConsumedAllPrefetchedBytes
+		}
 		return false, nil
 	}
 
